@@ -80,7 +80,7 @@ impl Agg {
                 self.samples.push((case.clone(), n));
             }
         }
-        *self.by_kind.entry(mmv::case::KINDS[case.kind as usize % 6].to_string()).or_insert(0) += 1;
+        *self.by_kind.entry(mmv::case::KINDS[case.kind as usize % mmv::case::KINDS.len()].to_string()).or_insert(0) += 1;
         *self.by_cap.entry(n).or_insert(0) += 1;
     }
     fn merge(&mut self, o: Agg) {
@@ -668,7 +668,7 @@ fn write_evidence(prop: Prop, tier: &str, seed: u64, agg: &Agg, wall: f64, corpu
         }
         samples.push(J::O(vec![
             ("engine".into(), J::S(case.engine.name().into())),
-            ("kind".into(), J::S(mmv::case::KINDS[case.kind as usize % 6].into())),
+            ("kind".into(), J::S(mmv::case::KINDS[case.kind as usize % mmv::case::KINDS.len()].into())),
             ("capacity".into(), J::N(*n as f64)),
             ("universe".into(), J::N(case.univ as f64)),
             ("fuse".into(), J::N(case.fuse as f64)),
